@@ -1,10 +1,12 @@
 //! Group "collect": C30 (paths), C31 (dubious hosts), C29 (fallback policy), C38 (size limit).
 mod uris;
 mod c30;
+mod c31;
 
 fn run(name: &str, ctx: &mut rvcore::Ctx) -> bool {
     match name {
         "c30" => c30::run_c30(ctx),
+        "c31" => c31::run_c31(ctx),
         _ => return false
     }
     true
